@@ -93,6 +93,7 @@ func canonV(v ref.V, loose bool) string {
 }
 
 var c15Forms = []string{
+	"let $x = `1` in let $a = `2`, $b = $a in $b", "let $a = 'outer' in [let $x = 'mid' in let $a = 'inner', $b = $a in $b]", "let $x = a in let $p = b, $q = $p, $r = $q in [$x, $r]", "let $x = a in let $y = b in let $p = c, $q = [$p, $y] in $q",
 	"{x: let $a = a in $a, y: let $b = b in $a}", "let $a = 'outer' in {x: let $a = 'inner' in $a, y: let $b = b in [$a, $b]}", "[let $a = a in $a, let $b = b in [$b]]",
 	"let $p = (let $a = a in $a), $q = (let $b = b in [$b, $b]) in [$p, $q]", "{x: let $a = a in [$a], y: let $b = b in {z: $b}, z: let $c = c in $c}", "let $a = a in {x: let $b = b in [$a, $b], y: let $c = c in [$a, $c], z: $a}",
 	"{p: let $a = a, $b = b in [$a, $b], q: let $a = c in $a, r: let $d = d in $d}", "rs[*].{x: let $i = id in $i, y: let $k = k in [$k], z: let $n = n in $n}", "[*].length(merge(`{}`, @))", "rs[*].merge(`{\"tag\":\"t\"}`, @).id", "merge(`{\"kind\":\"default\"}`, o1) | length(@)",
